@@ -20,10 +20,14 @@ func newMaxInflightFlowControl(name string, typ proxyv1alpha1.FlowControlSchemaT
 }
 
 type globalMaxInflight struct {
-	name  string
-	typ   proxyv1alpha1.FlowControlSchemaType
-	max   int32
-	count int32
+	// count is the sum of the counts of all instances. It is kept in 64 bits: every single
+	// count fits an int32, their sum (including increases that are about to be rolled back)
+	// need not. First field, so that it is 64-bit aligned for the atomic operations on 32-bit platforms.
+	count int64
+
+	name string
+	typ  proxyv1alpha1.FlowControlSchemaType
+	max  int32
 
 	lock           sync.RWMutex
 	instanceStates map[string]*instanceState
@@ -61,10 +65,10 @@ func (f *globalMaxInflight) TryAcquireN(instance string, n int32) bool {
 func (f *globalMaxInflight) ReleaseN(instance string, n int32) {
 }
 
-func (f *globalMaxInflight) add(n int32) int32 {
-	count := atomic.AddInt32(&f.count, n)
+func (f *globalMaxInflight) add(n int64) int64 {
+	count := atomic.AddInt64(&f.count, n)
 	max := atomic.LoadInt32(&f.max)
-	return count - max
+	return count - int64(max)
 }
 
 func (f *globalMaxInflight) SetState(instance string, requestId int64, current int32) (bool, int32, error) {
@@ -74,7 +78,7 @@ func (f *globalMaxInflight) SetState(instance string, requestId int64, current i
 		f.lock.Lock()
 		if state, ok := f.instanceStates[instance]; ok {
 			delete(f.instanceStates, instance)
-			f.add(-atomic.LoadInt32(&state.count))
+			f.add(-int64(atomic.LoadInt32(&state.count)))
 		}
 		f.lock.Unlock()
 		return false, -1, nil
@@ -108,7 +112,7 @@ func (f *globalMaxInflight) SetState(instance string, requestId int64, current i
 	}
 
 	old := atomic.SwapInt32(&state.count, current)
-	delta := current - old
+	delta := int64(current) - int64(old)
 	overflowed := f.add(delta)
 
 	// Only an increase can be refused. A report that lowers the count is always
@@ -125,22 +129,22 @@ func (f *globalMaxInflight) SetState(instance string, requestId int64, current i
 	return true, current, nil
 }
 
-func (f *globalMaxInflight) overflow() int32 {
+func (f *globalMaxInflight) overflow() int64 {
 	max := atomic.LoadInt32(&f.max)
-	count := atomic.LoadInt32(&f.count)
-	return count - max
+	count := atomic.LoadInt64(&f.count)
+	return count - int64(max)
 }
 
 func (f *globalMaxInflight) DebugInfo() string {
 	var msgs []string
-	var total int32
+	var total int64
 	f.lock.RLock()
 	for instance, state := range f.instanceStates {
 		msgs = append(msgs, fmt.Sprintf("[%s: %v]", instance, state.count))
-		total += state.count
+		total += int64(state.count)
 	}
 	f.lock.RUnlock()
-	count := atomic.LoadInt32(&f.count)
+	count := atomic.LoadInt64(&f.count)
 	max := atomic.LoadInt32(&f.max)
 	info := fmt.Sprintf("name=%s max=%v count=%v total=%v details=%v", f.name, max, count, total, strings.Join(msgs, ","))
 	return info
